@@ -2,6 +2,7 @@ import Driver.Proto
 import Driver.Pure
 import Driver.Store
 import Ibx.Model.Rest
+import Ibx.Model.RestFault
 import Ibx.Model.RestIds
 import Ibx.Model.ClientJoin
 /-
@@ -104,6 +105,30 @@ def dump (s : Store) : String :=
     | some b => hx ++ ":[" ++ "|".intercalate ((listing s b).map encMeta) ++ "]"
     | none => hx))
 
+def callTok (s : String) : Option RestFault.Call :=
+  match s with
+  | "gms" => some .getMessages | "gm" => some .getMessage | "so" => some .sourceOpen | "sr" => some .sourceRead
+  | "ms" => some .markSeen | "rm" => some .removeMessage | "pm" => some .purgeMessages | _ => none
+
+def callName : RestFault.Call → String
+  | .getMessages => "gms" | .getMessage => "gm" | .sourceOpen => "so" | .sourceRead => "sr"
+  | .markSeen => "ms" | .removeMessage => "rm" | .purgeMessages => "pm"
+
+def outcomeTok (s : String) : Option RestFault.Outcome :=
+  match s with
+  | "ok" => some .ok | "ne" => some .notExist | "wne" => some .wrapsNotExist | "io" => some .ioErr | _ => none
+
+/-- `gm:io,sr:ne` → the table; `-` = no fault -/
+def faultTable (s : String) : Option (List (RestFault.Call × RestFault.Outcome)) :=
+  if s == "-" then some []
+  else (s.splitOn ",").mapM (fun t =>
+    match t.splitOn ":" with
+    | [c, o] => match callTok c, outcomeTok o with | some c, some o => some (c, o) | _, _ => none
+    | _ => none)
+
+def faultFun (tbl : List (RestFault.Call × RestFault.Outcome)) (c : RestFault.Call) : RestFault.Outcome :=
+  match tbl.find? (·.1 == c) with | some (_, o) => o | none => .ok
+
 def step (s : St) (toks : List String) : St × String :=
   let (ps, kv) := splitKV toks
   match ps with
@@ -127,6 +152,21 @@ def step (s : St) (toks : List String) : St × String :=
         ({ s with store := st }, s!"{encStatus r.status} {encPayload r.payload}")
       else (s, "oracle-missing")
     | _, _, _, _, _, _, _ => (s, "bad-op")
+  | ["freq", h, name, id] =>
+    match handlerOf h, Bytes.ofHex name, idTok id, (kv.get? "body") >>= bodyTok, (kv.get? "num") >>= numTok,
+          (kv.get? "natt") >>= String.toNat?, parseIpTable ((kv.get? "ip").getD "-"), (kv.get? "f") >>= faultTable,
+          (kv.get? "after") >>= String.toNat?, kv.get? "env" with
+    | some h, some name, some id, some body, some num, some natt, some tbl, some ft, some after, some env =>
+      if env != "ok" && env != "bad" then (s, "bad-op")
+      else if (ipQueries name).all (fun q => tbl.any (·.1 == q)) then
+        let e : Env := { ip := ipFun tbl, naming := s.naming, contract := .strict }
+        let F : RestFault.Faults := { f := faultFun ft, readAfter := after, envelopeOk := env == "ok" }
+        let o := RestFault.handleF e F h s.store { name := name, id := id, body := body, num := num, natt := natt }
+        ({ s with store := o.store },
+          s!"{encStatus o.resp.status} {encPayload o.resp.payload} torn={if o.torn then 1 else 0} calls=" ++
+            (if o.calls.isEmpty then "-" else ",".intercalate (o.calls.map callName)))
+      else (s, "oracle-missing")
+    | _, _, _, _, _, _, _, _, _, _ => (s, "bad-op")
   | ["dump"] => (s, dump s.store)
   | ["route", m, wire] =>
     match Bytes.ofHex wire, (kv.get? "base") >>= hexList with
